@@ -350,7 +350,7 @@ def spec_kernel(kind, want, rsd, ranks_on=False, repo=None, lc=False):
                  'ranksc', 'LRG_hod_dict', 'ELG_hod_dict', 'QSO_hod_dict', 'rsd', 'inv_velz2kms', 'lbox', 'Mpart', 'want_LRG', 'want_ELG', 'want_QSO', 'Nthread',
                  'origin', 'keep_cent']
         args = {k: args[k] for k in order}
-    return FnSpec(HOD, N['fn'], prop='C09', name=name, args=args, opaque_mul=lc,
+    return FnSpec(HOD, N['fn'], prop='C09', name=name, args=args, opaque_mul=lc, auto_skolem=True,
                   ghosts=ghosts, requires=req, ensures=ens, frame=[], inline=['wrap'], callees=callees,
                   blocks=[dict(stmts=BLOCK, apply=block_apply, note='gstart = running sums over threads of the per-thread counts (cumsum), first row 0')],
                   loops=loops, hints={'N_lrg = ': [f'gstart[Nthread, 0] == RK(1, {H})', f'gstart[Nthread, 1] == RK(2, {H})', f'gstart[Nthread, 2] == RK(3, {H})']})
